@@ -4,10 +4,12 @@ CONSTANTS
   RSizes = {1, 15, 16, 17, 4096, 32768, 100000}
   MaxWrites = 3
   MaxFlushes = 1
-  Budgets <- BudgetsAll
-  MaxSingles = 2
-  ReadWrites = 1
-  RefTotals = {1, 1024, 40000, 70000, 140000}
-  MaxTruncItem = 5
+  Budgets <- BudgetsSome
+  MaxSingles = 0
+  ReadWrites = 0
+  RefTotals = {}
+  MaxTruncItem = 0
+  RefBlocks <- BlocksJava
+  Parts_ <- PartsWriter
 INVARIANTS TypeOK FrameLens RoundTrip UnframedReadable HistoryFree
 CHECK_DEADLOCK FALSE
